@@ -807,6 +807,7 @@ static int _fetch_and_process_packet(OggVorbis_File *vf,
 
         if(!readp)return(0);
         if((ret=_get_next_page(vf,&og,-1))<0){
+          if(ret==OV_EREAD)return(OV_EREAD); /* not the same as eof */
           return(OV_EOF); /* eof. leave unitialized */
         }
 
@@ -1821,7 +1822,16 @@ int ov_pcm_seek(OggVorbis_File *vf,ogg_int64_t pos){
       if(ret<0 && ret!=OV_HOLE)break;
 
       /* suck in a new page */
-      if(_get_next_page(vf,&og,-1)<0)break;
+      {
+        ogg_int64_t llret=_get_next_page(vf,&og,-1);
+        if(llret==OV_EREAD){
+          /* dump machine so we're in a known state */
+          vf->pcm_offset=-1;
+          _decode_clear(vf);
+          return(OV_EREAD);
+        }
+        if(llret<0)break;
+      }
       if(ogg_page_bos(&og))_decode_clear(vf);
 
       if(vf->ready_state<STREAMSET){
@@ -1866,9 +1876,16 @@ int ov_pcm_seek(OggVorbis_File *vf,ogg_int64_t pos){
       vorbis_synthesis_read(&vf->vd,samples);
       vf->pcm_offset+=samples<<hs;
 
-      if(samples<target)
-        if(_fetch_and_process_packet(vf,NULL,1,1)<=0)
+      if(samples<target){
+        int ret=_fetch_and_process_packet(vf,NULL,1,1);
+        if(ret==OV_EREAD){
+          vf->pcm_offset=-1;
+          _decode_clear(vf);
+          return(OV_EREAD);
+        }
+        if(ret<=0)
           vf->pcm_offset=ov_pcm_total(vf,-1); /* eof */
+      }
     }
   }
   return 0;
@@ -2350,6 +2367,8 @@ static void _ov_getlap(OggVorbis_File *vf,vorbis_info *vi,vorbis_dsp_state *vd,
     /* suck in another packet */
       int ret=_fetch_and_process_packet(vf,NULL,1,0); /* do *not* span */
       if(ret==OV_EOF)break;
+      if(ret<0 && ret!=OV_HOLE)break; /* an error that will not go away
+                                         by asking again */
     }
   }
   if(lapcount<lapsize){
